@@ -80,9 +80,28 @@ func rootGlobal(v ssa.Value, depth int) *ssa.Global {
 
 // derivesFromEncodingParam: the value is loaded (through field/index chains) from
 // a parameter or receiver of type *basex.Encoding — the shared encodings.
-func derivesFromEncodingParam(v ssa.Value, depth int) bool {
-	if depth > 12 {
+// sharedPointee: the value is a pointer to (or into) an object of a type whose instances are shared between
+// operations — the package-level encodings and the repository's own keyring / key objects — WHEREVER the pointer
+// came from (a parameter, a field that holds it such as encoder.enc or armorParams.Encoding, a call result).
+func sharedPointee(t types.Type) bool {
+	p, ok := t.Underlying().(*types.Pointer)
+	if !ok {
 		return false
+	}
+	n, ok := p.Elem().(*types.Named) // a pointer to the object itself, not a pointer to a field that holds such a pointer
+	if !ok || n.Obj().Pkg() == nil {
+		return false
+	}
+	q := n.Obj().Pkg().Path() + "." + n.Obj().Name()
+	return q == "github.com/keybase/saltpack/encoding/basex.Encoding" || q == "github.com/keybase/saltpack/basic.Keyring"
+}
+
+func derivesFromEncodingParam(v ssa.Value, depth int) bool {
+	if depth > 24 {
+		return true // too deep to decide: report rather than stay silent
+	}
+	if sharedPointee(v.Type()) {
+		return true
 	}
 	switch x := v.(type) {
 	case *ssa.Parameter:
@@ -201,6 +220,9 @@ func genInventory(pkgs []*packages.Package) {
 		if fn.Name() == "init" || strings.HasSuffix(name, ".NewEncoding") || strings.HasPrefix(fn.Name(), "init#") {
 			continue // construction time
 		}
+		if own[fn.Pkg] == "basic" && (strings.Contains(fn.Name(), "Import") || strings.Contains(fn.Name(), "Generate") || strings.HasPrefix(fn.Name(), "New") || strings.HasPrefix(fn.Name(), "generate")) {
+			continue // the keyring's own mutators: building a keyring is not one of the concurrent operations
+		}
 		for _, b := range fn.Blocks {
 			for _, ins := range b.Instrs {
 				switch x := ins.(type) {
@@ -208,7 +230,7 @@ func genInventory(pkgs []*packages.Package) {
 					if g := rootGlobal(x.Addr, 0); g != nil && own[g.Pkg] != "" {
 						sharedWrites = append(sharedWrites, fmt.Sprintf("%s stores to %s", name, g.Name()))
 					} else if derivesFromEncodingParam(x.Addr, 0) {
-						sharedWrites = append(sharedWrites, fmt.Sprintf("%s stores through *Encoding", name))
+						sharedWrites = append(sharedWrites, fmt.Sprintf("%s stores through a shared *Encoding / *Keyring", name))
 					}
 				case *ssa.MapUpdate:
 					if g := rootGlobal(x.Map, 0); g != nil && own[g.Pkg] != "" {
